@@ -137,11 +137,9 @@ type RequestedAuthnContext struct {
 
 func (sp *SAMLServiceProvider) Metadata() (*types.EntityDescriptor, error) {
 	keyDescriptors := make([]types.KeyDescriptor, 0, 2)
-	if sp.GetSigningKey() != nil {
-		signingCertBytes, err := sp.GetSigningCertBytes()
-		if err != nil {
-			return nil, err
-		}
+	if signingCertBytes, err := sp.getSigningCert(); err != nil {
+		return nil, err
+	} else if len(signingCertBytes) > 0 {
 		keyDescriptors = append(keyDescriptors, types.KeyDescriptor{
 			Use: "signing",
 			KeyInfo: dsigtypes.KeyInfo{
